@@ -367,6 +367,30 @@ Proof.
   - eapply bytes_ok_app_l; exact Hr0.
 Qed.
 
+Lemma dec_enc_varbytes : forall max s rest,
+  N.of_nat (length s) <= max -> N.of_nat (length s) < 2 ^ 64 ->
+  dec_varbytes max (enc_varstring s ++ rest) = Ok (s, rest).
+Proof.
+  intros max s rest Hm H64. unfold dec_varbytes, enc_varstring.
+  rewrite <- app_assoc. rewrite dec_enc_varint by exact H64. simpl bind.
+  destruct (N.ltb_spec max (N.of_nat (length s))); [lia|].
+  apply read_N_app.
+Qed.
+
+Lemma dec_varbytes_inv : forall max bs s r, bytes_ok bs = true -> dec_varbytes max bs = Ok (s, r) ->
+  bs = enc_varstring s ++ r /\ N.of_nat (length s) <= max /\ bytes_ok r = true /\ bytes_ok s = true.
+Proof.
+  intros max bs s r Hok Hd. unfold dec_varbytes in Hd.
+  destruct (dec_varint bs) as [[c r0]|e] eqn:Hc; simpl in Hd; [|discriminate].
+  apply dec_varint_inv in Hc; [|exact Hok]. destruct Hc as [Hbs [Hc64 Hr0]].
+  destruct (N.ltb_spec max c) as [Hlt|Hge]; [discriminate|].
+  apply read_N_inv in Hd. destruct Hd as [Hr0' Hlen].
+  subst r0. unfold enc_varstring. rewrite Hlen. rewrite <- app_assoc.
+  split; [exact Hbs|]. split; [lia|]. split.
+  - eapply bytes_ok_app_r; exact Hr0.
+  - eapply bytes_ok_app_l; exact Hr0.
+Qed.
+
 (* ---------- lists ---------- *)
 
 Lemma dec_list_enc : forall (A : Type) (wf : A -> bool) (enc : A -> bytes) (dec : bytes -> res (A * bytes)),
